@@ -78,8 +78,12 @@ Definition lb_ensure_capacity (cfg : lb_config) (lb : line_buffer) : option line
   end.
 
 (* bstr rfind_byte *)
-Definition memrchr (b : byte) (l : bytes) : option nat :=
-  option_map (fun i => length l - 1 - i) (find_index (N.eqb b) (rev l)).
+Fixpoint memrchr_aux (b : byte) (l : bytes) (i : nat) (acc : option nat) : option nat :=
+  match l with
+  | [] => acc
+  | x :: xs => memrchr_aux b xs (S i) (if N.eqb b x then Some i else acc)
+  end.
+Definition memrchr (b : byte) (l : bytes) : option nat := memrchr_aux b l 0 None.
 
 (* replace_bytes: the three nested loops as written.
      first_pos = find_byte(src)?; bytes[first_pos] = replacement; bytes = &bytes[first_pos+1..];
